@@ -9,6 +9,9 @@ from naunet.network import Network
 class Lab:
     """stub reaction whose identity is a symbolic integer label"""
 
+    reactants = ()  # a stub reaction has no species (remove_reaction rebuilds the species caches)
+    products = ()
+
     def __init__(self, label):
         self.label = label
 
